@@ -322,6 +322,11 @@ func (e *Exec) unop(st *State, fr *Frame, x *ssa.UnOp) []stepOut {
 		}
 		q, _ := st.heap[c.Obj].(ArrayV)
 		if len(q.E) == 0 {
+			if e.inSpawned > 0 {
+				// a goroutine run by vRunSpawned blocks here for good: its flow ends without running deferred calls
+				st.parked = true
+				return []stepOut{{st: st, fr: fr, panicked: true}}
+			}
 			panic(unsupported("receive on empty channel (would block) at %s", e.pos(x)))
 		}
 		st.heap[c.Obj] = ArrayV{append([]Value(nil), q.E[1:]...)}
